@@ -33,7 +33,8 @@ the padding repair (F16) it compares the octets left in the set and in the datag
 `f.Length == 65535` is `specMin`, `n < 1` the clamp to 1); `templateID == 0` /
 `ReadCount() == recordStart` are the zero-template / zero-length-record stops of the F2 repair; `leftoverBytes > 0`
 is `skipRest`; `ElementID > 0x8000` is `readSpec`'s enterprise test; the `i > 0; i--` loops are `readSpecs`;
-`fieldSpecifierLen == 65535` / `len8 == 255` are `dataLen`; the two field loops and `!ok` are `decFields`;
+`fieldSpecifierLen == 65535` (since the F23 repair without the former `(t == String || t == OctetArray) &&`: the marker
+means variable length for an element of any type) / `len8 == 255` are `dataLen`; the two field loops and `!ok` are `decFields`;
 `Version != …` / `Count < 1 || Count > 30` / `expectedLen > remainingLen` are the header validations; the sFlow
 sample / record loops and format switches are `Sflow.samples` / `flowRecords` / `counterRecords`;
 `HeaderLength > 1500`, `l != 16 && l != 28` are the F-series repairs' guards; the dissector length tests are the
